@@ -4,7 +4,8 @@ MOD = 'vf.harness.c18'
 
 OWN['C18'] = ['second-check-same-machine-identical', 'second-run-same-machine-identical', 'after-run-initial-state-no-leftover-transitions',
               'after-check-initial-state-no-leftover-transitions', 'history-other-pipeline-checked-before-same-steps-same-order',
-              'history-other-pipeline-checked-before-run-as-configured']
+              'history-other-pipeline-checked-before-run-as-configured', 'history-other-pipeline-run-before-run-as-configured',
+              'history-other-pipeline-run-before-same-products-as-fresh-machine', 'history-other-pipeline-run-before-right-dataset-empty-without-validation']
 
 
 def main(ctx):
